@@ -276,6 +276,39 @@ def stepCallback (j : Json) : String :=
     | k => .raw k       -- a plain error, a wrapped OAuth2Error and a *OAuth2Error are all "not an oauth.OAuth2Error value"
   cls (Callback.withCallbackURI Sites.callbackCfg e) (fun r => match r with | .oauth2 _ => ":oauth2" | .raw _ => ":other")
 
+/-! status list update, did:key -/
+
+def optNat (j : Json) (k : String) : Option Nat :=
+  match j.getObjVal? k with
+  | .ok (.num n) => if n.exponent == 0 && n.mantissa ≥ 0 then some n.mantissa.toNat else none
+  | .ok (.str s) => s.toNat?
+  | _ => none
+
+def stepSlcUpdate (j : Json) : String :=
+  let d := jObj j "downloaded"
+  let cred : Option StatusList.Cred :=
+    if d.isNull then none else
+      let subs : Option (List StatusList.Subject) := match d.getObjVal? "subjects" with
+        | .ok (.arr a) => some (a.toList.map fun s => { id := jStr s "id", typ := jStr s "type", purpose := jStr s "purpose", encodedList := jStr s "list" })
+        | _ => none
+      let exp : Option Bool := match d.getObjVal? "expiration" with | .ok (.bool b) => some b | _ => none
+      some { hasVCContext := jBool d "hasVCContext", hasSLContext := jBool d "hasSLContext", isVCType := jBool d "isVCType", isSLCType := jBool d "isSLCType",
+             nTypes := jNat d "nTypes", idNil := jBool d "idNil", issuanceZero := jBool d "issuanceZero", jsonldWithoutProof := jBool d "jsonldWithoutProof",
+             hasStatus := jBool d "hasStatus", subjects := subs, expiration := exp }
+  let em := jObj j "expand"
+  -- only the length of the expanded bitstring is observed
+  let expand : String → Option (List Nat) := fun l => (optNat em l).map fun n => List.replicate n 0
+  match StatusList.update Sites.statusListCfg (jStr j "url") cred expand true with
+  | .ok r => s!"ok purpose={r.purpose} bytes={r.bits.length} expires={r.hasExpires}"
+  | .err e => "err:" ++ e
+  | .panic s => "panic:" ++ siteFn s
+
+def stepDidKey (j : Json) : String :=
+  let i : DidKey.In :=
+    { method := jStr j "method", encodedKey := (jStr j "id").toList, b58Ok := jBool j "b58Ok", keyType := optNat j "keyType",
+      keyLength := jNat j "keyLength", rsaSize := optNat j "rsaSize", vmOk := jBool j "vmOk" }
+  cls (DidKey.resolve Sites.didKeyCfg i) (fun _ => "")
+
 def step (st : Unit) (j : Json) : Unit × List String :=
   match jStr j "op" with
   | "dpop" => (st, [stepDpop j])
@@ -290,6 +323,8 @@ def step (st : Unit) (j : Json) : Unit × List String :=
   | "iblt.raw" => (st, stepRaw j)
   | "murmur" => (st, [stepMurmur j])
   | "callback" => (st, [stepCallback j])
+  | "slc.update" => (st, [stepSlcUpdate j])
+  | "didkey" => (st, [stepDidKey j])
   | o => (st, ["bad-op:" ++ o])
 
 end Nuts.Drv.C19
